@@ -376,6 +376,24 @@ func genWire(r *Rng, buf int, nmsg int, rtRate int) []wireByte {
 				m[j] = byte(r.Intn(128))
 			}
 			m = append(m, 0xF7)
+			if r.Chance(1, 4) {
+				// the universal sysex messages a receiver might know by name: they are sysex like any other
+				dev := byte(r.Pick(0, 1, 0x10, 0x7F))
+				m = [][]byte{
+					{0xF0, 0x7F, dev, 0x01, 0x01, byte(r.Intn(128)), byte(r.Intn(60)), byte(r.Intn(60)), byte(r.Intn(30)), 0xF7}, // MTC full frame
+					{0xF0, 0x7F, dev, 0x01, 0x02, 1, 2, 3, 4, 5, 6, 7, 8, 9, 0xF7},                                               // MTC user bits
+					{0xF0, 0x7F, dev, 0x06, byte(r.Pick(1, 2, 3, 4, 9)), 0xF7},                                                   // MMC command
+					{0xF0, 0x7F, dev, 0x06, 0x44, 0x06, 0x01, 1, 2, 3, 4, 0, 0xF7},                                               // MMC locate
+					{0xF0, 0x7E, dev, 0x09, byte(r.Pick(1, 2, 3)), 0xF7},                                                         // GM on / off
+					{0xF0, 0x7E, dev, 0x06, 0x01, 0xF7},                                                                          // identity request
+					{0xF0, 0x7F, dev, 0x04, 0x01, byte(r.Intn(128)), byte(r.Intn(128)), 0xF7},                                   // master volume
+					{0xF0, 0x41, dev, 0x42, 0x12, 0x40, 0x00, 0x7F, 0x00, 0x41, 0xF7},                                            // GS reset
+					{0xF0, 0x43, dev, 0x4C, 0x00, 0x00, 0x7E, 0x00, 0xF7},                                                        // XG on
+				}[r.Intn(9)]
+				if len(m) > eff {
+					m = []byte{0xF0, 0x7E, dev, 0xF7}
+				}
+			}
 		}
 		bytes := m
 		if m[0] < 0xF0 && m[0] == run && r.Chance(3, 4) {
